@@ -5,7 +5,7 @@ import contextlib
 import io
 import os
 
-from .. import enc, ledger, seams, world
+from .. import enc, ledger, seams, thrscen, world
 
 LEVEL = 'model_checking'
 PREFIX = (('f',), ('f', 's'))
@@ -235,13 +235,15 @@ def run(ctx):
         for key, what, hist, sizes in bad:
             ctx.violation(key, "%s; writes %s in batches %s" % (what, ledger.hist_str(hist), sizes),
                           {'hist': [list(p) for p in hist], 'sizes': sizes})
+    # ---- the schedule dimension: two or three threads saving and flushing through the one shared store
+    thr = thrscen.run(ctx, 'C08', 2 if ctx.quick else 3)
     shared = sum(1 for h in hists if _has_shared(uni, h))
     ctx.cov.update({
         'states': tot['reloads'], 'transitions': tot['flushes'], 'traces_validated_against_impl': tot['blocks_compared'],
         'samples': [{'writes': ledger.hist_str(hists[-1]), 'batches': compositions(len(hists[-1]))[3]}],
         'histories': len(hists), 'histories_with_tx_shared_between_stored_blocks': shared, 'runs': tot['runs'],
         'ledger_state_checks': tot['state_checks'], 'ledger_state_checks_skipped_after_block_mismatch': tot['state_checks_skipped'],
-        'exhaustive': True,
+        'exhaustive': True, 'thread_schedules': thr,
         'rule': "histories = BFS over block trees (payload menu with forks including the same transaction / spending the same "
                 "output differently / multi-input multi-output), %d blocks beyond a 2-block prefix; each history under every "
                 "composition into flush batches; after every flush a restart and comparison of every block (bytes, order) and "
@@ -265,6 +267,8 @@ def _has_shared(uni, hist):
 def replay(data, ctx):
     from skepticoin import blockstore
     ledger.setup()
+    if 'thread_scenario' in data:
+        return thrscen.replay(data)
     if not data['hist']:
         st, bad, n = _sweep_worker(None)
         return [(k, w) for k, w, _, _ in bad]
